@@ -200,7 +200,7 @@ def gen_input(rng, kind, tier):
         feats.append("unused_chroms_in_sizes")
     feats.append("final_newline" if final_newline else "no_final_newline")
     return dict(kind=kind, names=names, sizes=sizes, records=records, lines=lines, text=text, sizes_text=sizes_text, feats=feats, ncol=ncol,
-                per_chrom=per_chrom, nextra=len(extra))
+                per_chrom=per_chrom, nextra=len(extra), mixed_columns=bool(long_first and kind == "bed"))
 
 
 def _autosql(ncol):
@@ -234,7 +234,7 @@ def gen_opts(rng, kind, inp):
     o["style"] = rng.choice(["direct", "direct", "bigtools_sub", "bigtools_sub_ucsc", "symlink_ucsc", "symlink_ucsc", "symlink_lower"])
     o["opts_first"] = rng.random() < 0.5
     if kind == "bed":
-        o["autosql"] = rng.choice([None, None, "--autosql", "-a", "-as="]) if "long_first_line" not in inp["feats"] else None
+        o["autosql"] = rng.choice([None, None, "--autosql", "-a", "-as="]) if not inp["mixed_columns"] else None
     # backward conversions
     o["back"] = _gen_back(rng, kind, inp, restricted=False)
     o["back_restricted"] = _gen_back(rng, kind, inp, restricted=True) if rng.random() < 0.65 else None
@@ -627,7 +627,7 @@ def _case(c, seed, tier, index, cwd):
             problem = ("other_chromosome", [repr(x)[:200] for x in got if x[0] != chrom][:3])
         elif not _is_subseq(got, on_chrom):
             problem = ("not_a_subsequence_of_input", [repr(x)[:200] for x in got[:5]])
-        elif any(x in mustnot and x not in must and on_chrom.count(x) <= mustnot.count(x) for x in got):
+        elif any(x in mustnot for x in got):
             problem = ("entry_outside_range", [repr(x)[:200] for x in got if x in mustnot][:3])
         elif not _is_subseq(must, got):
             problem = ("overlapping_entry_missing", [repr(x)[:200] for x in must if x not in got][:3])
